@@ -485,13 +485,15 @@ theorem noProgress_needs_consecutive (P : Problem α) (dir : Direction D α) (d0
       evaluated at `(γ, x, x̂, ŷ(x̂), ∇ψ(x), ∇ψ(x̂))`, where `x̂`, `ŷ(x̂)` are the returned `x`, `y`.
 
     Hypotheses on the problem: its prox step is the projection step (`ProxIsProj`) and its oracles are
-    consistent with one gradient map (`GradLaw`).  The loop part is the data invariant `Doc` of
+    consistent with one gradient map (`GradLaw`: `eval_ψ_grad_ψ`, `eval_grad_ψ`, `eval_grad_L(·, ŷ(·))` agree;
+    only with `eager_gradient_eval` also: `eval_ψ_grad_ψ` leaves `ŷ` in its workspace — forced, the real
+    solver reads that workspace as `ŷ`: open finding `C06-panoc-eager-workspace-as-yhat`).  The loop part is the data invariant `Doc` of
     `Proofs/PanocDoc` (it depends on `take_safe_step` clearing both `have_grad_ψx̂` flags and on
     `eval_ψx̂` resetting the flag after every new step). -/
 theorem eps_is_documented (hnn : ∀ a : α, RealLike.isNaN a = false) (PC : Vec α → Vec α)
-    (P : Problem α) (hL : GradLaw P)
+    (P : Problem α)
     (hP : ProxIsProj PC (fun γ x g => ((P.prox γ x g).2.1, (P.prox γ x g).2.2)))
-    (dir : Direction D α) (d0 : D) (pr : Params α)
+    (dir : Direction D α) (d0 : D) (pr : Params α) (hL : GradLaw P pr.eagerGradientEval)
     (stop : Nat → Bool) (hm : StopMono stop) (n K : Nat) (hF : FuelOK pr n K) (oot : Bool)
     (x0 y Sig errz0 gV : Vec α) (gS iS : α) (sh : St α D)
     (hh : finalHead P dir d0 pr stop oot x0 gV gS iS = some sh) :
@@ -511,7 +513,7 @@ theorem eps_is_documented (hnn : ∀ a : α, RealLike.isNaN a = false) (PC : Vec
   -- the invariant at the last head
   have hdoc : Doc P sh.curr ∧ 0 < sh.curr.gamma ∧
       (requiresGradHat pr.stopCrit = true → sh.curr.haveGradHat = true) := by
-    have hi := initState_doc hL d0 pr stop x0 gV gS iS
+    have hi := initState_doc d0 pr hL stop x0 gV gS iS
     have hfi := initState_finv P d0 pr stop x0 gV gS iS n K hF
     unfold finalHead at hh
     cases hs : initState P d0 pr stop x0 gV gS iS with
@@ -520,8 +522,8 @@ theorem eps_is_documented (hnn : ∀ a : α, RealLike.isNaN a = false) (PC : Vec
       rw [hs] at hh hi hfi
       simp only [] at hi hfi
       injection hh with hh
-      have hl := lastHead_doc hL dir pr stop n K hF oot (pr.maxIter + 2) s hi hfi.1
-      have hd := headStep_doc hL pr stop oot _ hl.1
+      have hl := lastHead_doc dir pr hL stop n K hF oot (pr.maxIter + 2) s hi hfi.1
+      have hd := headStep_doc pr hL stop oot _ hl.1
       have hf := headStep_finv P pr stop oot _ hl.2
       rw [hh] at hd hf
       exact ⟨hd.1, hf.gok.1, hd.2⟩
@@ -661,6 +663,64 @@ example : prStuck.maxNoProgress <
   | some sh =>
     exact noProgress_needs_consecutive Pstuck dirNoop () prStuck (stopAt none) (stopAt_mono none) 1 9 hF
       false [1] [] [] [] [] 0 0 sh hh (by decide +kernel)
+
+/-! `eps_is_documented`: `ψ = ½‖x‖²`, `C = ℝⁿ` (`Π_C = id`), prox step `(x − γg, (x − γg) − x)`. -/
+
+/-- `Pq` with the step written as `p = x̂ − x` (so that `ProxIsProj id` holds by `rfl`) -/
+def Pdoc : Problem ℚ where
+  psiGradPsi x := (sqNorm x / 2, x, [])
+  psi x := (sqNorm x / 2, [])
+  gradPsi x := x
+  gradL x _ := x
+  prox γ x g := (0, vsub x (smul γ g), vsub (vsub x (smul γ g)) x)
+
+theorem gradLaw_Pdoc (e : Bool) : GradLaw Pdoc e := ⟨fun _ => rfl, fun _ => rfl, fun _ _ => rfl⟩
+
+theorem proxIsProj_Pdoc :
+    ProxIsProj id (fun γ x g => ((Pdoc.prox γ x g).2.1, (Pdoc.prox γ x g).2.2)) := fun _ _ _ => rfl
+
+/-- the run (ApproxKKT criterion, the default) reaches the main loop and converges -/
+example : (finalHead Pdoc dirNoop () { prq with stopCrit := .ApproxKKT } (stopAt none) false [1] [] 0 0).isSome
+      = true ∧
+    (run Pdoc dirNoop () { prq with stopCrit := .ApproxKKT } (stopAt none) false [1] [] [] [] [] 0 0).stats.status
+      = .Converged := by decide +kernel
+
+/-- **`eps_is_documented`, every hypothesis discharged** (for each criterion `crit`): the reported `ε` is
+    the documented formula at the written-back point -/
+example (crit : PANOCStopCrit) (sh : St ℚ Unit)
+    (hh : finalHead Pdoc dirNoop () { prq with stopCrit := crit } (stopAt none) false [1] [] 0 0 = some sh) :
+    ∃ c, (run Pdoc dirNoop () { prq with stopCrit := crit } (stopAt none) false [1] [] [] [] [] 0 0).final
+        = some c ∧ 0 < c.gamma ∧ c.xhat = vsub c.x (smul c.gamma c.x) ∧ c.p = vsub c.xhat c.x ∧
+      (run Pdoc dirNoop () { prq with stopCrit := crit } (stopAt none) false [1] [] [] [] [] 0 0).stats.eps =
+        docCrit id crit c.gamma c.x c.xhat [] c.x c.xhat := by
+  have hF : FuelOK { prq with stopCrit := crit } 1 9 := by
+    refine ⟨?_, ?_, ?_, ?_, ?_, by norm_num, ?_, ?_⟩ <;> norm_num [prq, Lstart]
+  obtain ⟨c, hc, hγ, hcons, _, _, _, _, heps⟩ :=
+    eps_is_documented (fun _ => rfl) id Pdoc proxIsProj_Pdoc dirNoop ()
+      { prq with stopCrit := crit } (gradLaw_Pdoc _) (stopAt none) (stopAt_mono none) 1 9 hF false [1] [] [] [] [] 0 0 sh hh
+  exact ⟨c, hc, hγ, hcons.hxh, hcons.hp, heps⟩
+
+/-- the same with `eager_gradient_eval = true` and a stop request landing in the first line search
+    (flag visible from tick 7): interrupted line search, eager buffers — still the documented formula -/
+example (crit : PANOCStopCrit) (sh : St ℚ Unit)
+    (hh : finalHead Pdoc dirNoop () { prq with stopCrit := crit, eagerGradientEval := true }
+      (stopAt (some 7)) false [1] [] 0 0 = some sh) :
+    ∃ c, (run Pdoc dirNoop () { prq with stopCrit := crit, eagerGradientEval := true } (stopAt (some 7)) false
+        [1] [] [] [] [] 0 0).final = some c ∧ 0 < c.gamma ∧
+      (run Pdoc dirNoop () { prq with stopCrit := crit, eagerGradientEval := true } (stopAt (some 7)) false
+        [1] [] [] [] [] 0 0).stats.eps = docCrit id crit c.gamma c.x c.xhat [] c.x c.xhat := by
+  have hF : FuelOK { prq with stopCrit := crit, eagerGradientEval := true } 1 9 := by
+    refine ⟨?_, ?_, ?_, ?_, ?_, by norm_num, ?_, ?_⟩ <;> norm_num [prq, Lstart]
+  obtain ⟨c, hc, hγ, _, _, _, _, _, heps⟩ :=
+    eps_is_documented (fun _ => rfl) id Pdoc proxIsProj_Pdoc dirNoop ()
+      { prq with stopCrit := crit, eagerGradientEval := true } (gradLaw_Pdoc _) (stopAt (some 7))
+      (stopAt_mono (some 7)) 1 9 hF false [1] [] [] [] [] 0 0 sh hh
+  exact ⟨c, hc, hγ, heps⟩
+
+example : (run Pdoc dirNoop () { prq with stopCrit := .ApproxKKT, eagerGradientEval := true }
+      (stopAt (some 7)) false [1] [] [] [] [] 0 0).stats.status = .Interrupted ∧
+    (finalHead Pdoc dirNoop () { prq with stopCrit := .ApproxKKT, eagerGradientEval := true }
+      (stopAt (some 7)) false [1] [] 0 0).isSome = true := by decide +kernel
 
 /-! `NotFinite`: a carrier whose `isFinite` is `|q| < 1000` (`rlBounded`; the theorems hold for any
     `RealLike`), `+∞ := 10⁶`. -/
